@@ -12,6 +12,8 @@ import (
 	"github.com/0xPolygon/cdk-contracts-tooling/contracts/fep/etrog/polygonzkevmbridge"
 	"github.com/0xPolygon/cdk-contracts-tooling/contracts/pp/l2-sovereign-chain/polygonzkevmbridgev2"
 	"github.com/agglayer/aggkit/bridgesync"
+	"github.com/agglayer/aggkit/sync"
+	"github.com/ethereum/go-ethereum/accounts/abi"
 	"github.com/ethereum/go-ethereum/common"
 	"github.com/ethereum/go-ethereum/crypto"
 )
@@ -244,7 +246,52 @@ func ctExec(r *Run, line string) {
 	if err == nil && len(matches) == 0 {
 		r.Fail(fmt.Sprintf("no live bridge call has global index %s, yet claim details were recorded", gi), []string{line})
 	}
+	// the same trace behind the real log handler of the claim event (full-claims mode), called the way the downloader calls
+	// it: on an error the block must be left as it was (the downloader calls the handler again on the same block), on
+	// success exactly one claim with the details found above is appended
+	if ctAppender == nil {
+		var e error
+		ctAppender, e = bridgesync.VerifBuildAppender(ctLogClient, ctBridge, true, lg())
+		must(e)
+		ctABI, e = polygonzkevmbridgev2.Polygonzkevmbridgev2MetaData.GetAbi()
+		must(e)
+	}
+	l := liMkLog(ctABI, "ClaimEvent", 3, gi, uint32(1), ctAddr(77), ctAddr(78), big.NewInt(5))
+	l.Address = ctBridge
+	l.TxHash = common.BytesToHash(gi.Bytes())
+	ctLogClient.traces[l.TxHash] = string(tj)
+	blk := &sync.EVMBlock{EVMBlockHeader: sync.EVMBlockHeader{Num: 9}}
+	attempts := 1
+	herr := ctAppender[l.Topics[0]](blk, l)
+	if herr != nil && len(blk.Events) == 0 {
+		attempts++
+		herr = ctAppender[l.Topics[0]](blk, l) // the downloader's retry
+	}
+	delete(ctLogClient.traces, l.TxHash)
+	switch {
+	case (herr == nil) != (err == nil):
+		r.Fail(fmt.Sprintf("[C20] the claim log handler and setClaimCalldata disagree on global index %s: handler %v, direct %v", gi, herr, err), []string{line})
+	case herr != nil && len(blk.Events) != 0:
+		r.Fail(fmt.Sprintf("[C20] the claim log handler raised an error (%v) for global index %s and still left %d event(s) in the block after %d call(s): a claim is recorded although no call was found", herr, gi, len(blk.Events), attempts), []string{line})
+	case herr == nil:
+		var hc *bridgesync.Claim
+		if len(blk.Events) == 1 {
+			if ev, ok := blk.Events[0].(bridgesync.Event); ok {
+				hc = ev.Claim
+			}
+		}
+		if hc == nil || hc.DestinationNetwork != c.DestinationNetwork || hc.FromAddress != c.FromAddress || hc.IsMessage != c.IsMessage ||
+			string(hc.Metadata) != string(c.Metadata) || hc.MainnetExitRoot != c.MainnetExitRoot || hc.ProofLocalExitRoot != c.ProofLocalExitRoot ||
+			hc.GlobalIndex.Cmp(gi) != 0 {
+			r.Fail(fmt.Sprintf("[C20] the claim log handler left %d event(s) for global index %s whose details are not those of the call found in the transaction", len(blk.Events), gi), []string{line})
+		}
+	}
+	r.Count("via-log-handler")
 }
+
+var ctLogClient = &bsEthClient{traces: map[common.Hash]string{}}
+var ctAppender sync.LogAppenderMap
+var ctABI *abi.ABI
 
 func ctGenTree(rng *Rng, depth, maxFan int, ids *uint64, malformed bool, gis []*big.Int) *ctFrame {
 	f := &ctFrame{sender: uint64(1 + rng.Intn(200)), kind: 'x', gi: big.NewInt(0)}
